@@ -11,7 +11,11 @@ CHECKS = {
         category="model_checking",
         text="TLC explores every interleaving of the consumer and T Collector threads at queue-operation "
              "granularity (T<=3, N around T and 2T+2, every failing position, every abandon position, pool reuse), "
-             "safety invariants plus termination / fault-surfacing under weak fairness. The model is bound to the "
+             "safety invariants plus termination / fault-surfacing under weak fairness; the at-most-once half of the "
+             "property (every result handed out is an input and none is handed out twice) and the in-flight bound "
+             "are additionally proved for EVERY T, N, failing set, abandon position, prefill and number of pool "
+             "reuses with the TLA+ proof system (spec/proofs/LazyPool_OnceProofs.tla, 819 obligations: work queue, "
+             "workers' hands, result queue, consumer's hand and output hold pairwise disjoint sets of inputs). The model is bound to the "
              "real pool both ways: an edge cover of the T<=2 state graphs is imposed on the real threads through a "
              "queue shim with state comparison after every step; seeded schedules explore the real threads with "
              "structural deadlock detection; free-running executions logged inside the queue mutex are validated "
@@ -19,7 +23,7 @@ CHECKS = {
         design_ref="DESIGN.md 3.2, 4.3, 5/C13",
         note="Trusted: queue.Queue, CPython threading, TLC. Exhaustive only for the small constants listed in "
              "the evidence; larger instances are sampled by seeded schedules.",
-        technique="TLA+ model checking (TLC) + schedule replay into the real threads + trace validation",
+        technique="TLA+ model checking (TLC; TLAPS proofs of at-most-once and the in-flight bound for all constants) + schedule replay into the real threads (virtual-time expiry of timed waits) + trace validation",
     ),
 }
 
@@ -183,7 +187,7 @@ CHECKS.update({
              "workers, recv/send rotation, drop, join, panic): TLC checks Order, NoSilentTruncation, OneOutstanding, "
              "ReadAhead and DropTerminates for T in 1..4, N in 0..7, every drop position and every single panicking "
              "item; Order and ReadAhead are additionally proved for EVERY T, N, panicking set and drop position with "
-             "the TLA+ proof system (spec/proofs/ParallelMap_OrderProofs.tla, 544 obligations: each worker's single "
+             "the TLA+ proof system (spec/proofs/ParallelMap_OrderProofs.tla, 583 obligations, together with NoSilentTruncation: each worker's single "
              "outstanding item is the one its position in the rotation demands). /verif/rust_harness links /repo/rust and drives the real parallel_map with gate-controlled "
              "mapped functions: an edge cover of the T<=3, N<=4 state graphs (which worker finishes when, relative "
              "to next() and drop) is imposed, and every event log is validated against ParallelMap_Trace.tla. At the "
